@@ -73,6 +73,16 @@ func Copy(ctx context.Context, srcRoot, src, dstRoot, dst string, opts ...Opt) e
 	for _, o := range opts {
 		o(&ci)
 	}
+	// a root may be handed over as a symlink to the directory (/var/run,
+	// current -> releases/42): paths are resolved inside the directory it
+	// names, the root itself is never one of the links that get copied,
+	// replaced or refused
+	if p, err := filepath.EvalSymlinks(srcRoot); err == nil {
+		srcRoot = p
+	}
+	if p, err := filepath.EvalSymlinks(dstRoot); err == nil {
+		dstRoot = p
+	}
 	ensureDstPath := dst
 	if d, f := filepath.Split(dst); f != "" && f != "." {
 		ensureDstPath = d
